@@ -73,6 +73,8 @@ def execute_plan(mod, plan, known_open, cap_s=60.0, keep_events=False):
     signal.setitimer(signal.ITIMER_REAL, cap_s)
     # the cycle collector is a scheduler of its own (it runs whenever allocation counts say so, which depends on everything
     # the process did before): it is switched off for the run and runs only where the plan says so ('gc' steps)
+    from . import libstate
+    libstate.reset()          # every run starts from the library's just-imported module state
     gc.collect()
     global _FROZEN
     if not _FROZEN and 'rsatoolbox' in sys.modules:
